@@ -16,7 +16,29 @@ func init() { Checks["C19"] = CheckC19 }
 // zfuncs: the calls the property names. Each takes pre-allocated state only.
 var c19Funcs = []string{"ReadFloat64", "ReadInt64", "ReadUint64", "ReadInt32", "ReadUint32", "ReadInt", "ReadUint", "ReadBool", "ReadNull",
 	"NextToken", "NextTokenType", "DecodeFloat64", "DecodeInt64", "DecodeUint64", "DecodeInt32", "DecodeUint32", "DecodeInt", "DecodeUint", "DecodeBool",
-	"SkipValue", "SkipValueFast", "Valid", "HandleArrayValues", "HandleObjectValues", "ReadStringBytes", "UnescapeStringContent"}
+	"SkipValue", "SkipValueFast", "Valid", "HandleArrayValues", "HandleObjectValues", "ReadStringBytes", "UnescapeStringContent",
+	"HandleArrayValues/recursive", "HandleObjectValues/recursive"}
+
+// walker is a pre-allocated, non-allocating handler that re-enters the library on every
+// container member with the very Buffer of the enclosing call (the natural recursive
+// tree-walker), and skips scalars itself.
+type walker struct {
+	buf *rjson.Buffer
+	n   int
+}
+
+func (w *walker) HandleArrayValue(d []byte) (int, error) {
+	w.n++
+	if len(d) > 0 && d[0] == '[' {
+		return rjson.HandleArrayValues(d, w, w.buf)
+	}
+	if len(d) > 0 && d[0] == '{' {
+		return rjson.HandleObjectValues(d, w, w.buf)
+	}
+	return 0, nil
+}
+
+func (w *walker) HandleObjectValue(k, d []byte) (int, error) { return w.HandleArrayValue(d) }
 
 func c19FuncIndex(name string) int {
 	for i, n := range c19Funcs {
@@ -34,6 +56,7 @@ type zcase struct {
 	dst []byte        // spare capacity >= len(in)
 	buf *rjson.Buffer // warmed on the same document
 	h   *nopHandler   // pre-allocated pointer-receiver handler that declines
+	w   *walker       // pre-allocated recursive handler sharing buf
 	// targets for the Decode forms (heap-allocated once, here)
 	f  float64
 	i  int64
@@ -103,6 +126,10 @@ func (z *zcase) run() bool {
 		_, _, err = rjson.ReadStringBytes(z.in, z.dst[:0])
 	case 25:
 		_, _, err = rjson.UnescapeStringContent(z.in, z.dst[:0])
+	case 26:
+		_, err = rjson.HandleArrayValues(z.in, z.w, z.buf)
+	case 27:
+		_, err = rjson.HandleObjectValues(z.in, z.w, z.buf)
 	}
 	return err == nil
 }
@@ -111,10 +138,11 @@ func (z *zcase) run() bool {
 // ok reports whether the call is in the property's domain (it succeeds).
 func newZcase(fn int, in []byte) (*zcase, bool) {
 	z := &zcase{fn: fn, in: append([]byte(nil), in...), h: &nopHandler{}}
-	if fn >= 19 && fn <= 23 {
+	if (fn >= 19 && fn <= 23) || fn >= 26 {
 		z.buf = &rjson.Buffer{} // warmed below by the function under test itself, on the same document
+		z.w = &walker{buf: z.buf}
 	}
-	if fn >= 24 {
+	if fn == 24 || fn == 25 {
 		z.dst = make([]byte, 0, len(in)+8)
 	}
 	ok := false
@@ -229,7 +257,7 @@ func c19Nontrivial(fn int, in []byte) bool {
 		if e := ref.Number(in, i); e > 0 {
 			return floatNontrivial(in[i:e])
 		}
-	case fn >= 24:
+	case fn == 24 || fn == 25:
 		for _, c := range in {
 			if c == '\\' {
 				return true
